@@ -250,6 +250,7 @@ type attemptRec struct {
 	t    int64
 	got  []byte
 	auth string // Authorization header of the request
+	method string
 	beh  behaviour
 }
 
@@ -283,7 +284,7 @@ func (s *server) RoundTrip(req *http.Request) (*http.Response, error) {
 		b = s.script[s.pos]
 	}
 	s.pos++
-	rec := attemptRec{t: int64(time.Since(s.start)), auth: req.Header.Get("Authorization"), beh: b}
+	rec := attemptRec{t: int64(time.Since(s.start)), auth: req.Header.Get("Authorization"), method: req.Method, beh: b}
 	if req.Body != nil {
 		if b.Read < 0 {
 			rec.got, _ = io.ReadAll(req.Body)
@@ -309,6 +310,9 @@ func (s *server) RoundTrip(req *http.Request) (*http.Response, error) {
 		return nil, s.lastShape.err
 	}
 	resp := mk(b.Code, "")
+	if b.Code == 202 && req.Method == http.MethodPost {
+		resp.Header.Set("Location", "/v2/r/blobs/uploads/session-1") // blob upload session
+	}
 	if b.RetryAfter != "" {
 		resp.Header.Set("Retry-After", b.RetryAfter)
 	}
@@ -433,7 +437,7 @@ func execScript(t *testing.T, c *scriptCase) scriptObs {
 	synctest.Test(t, func(t *testing.T) {
 		srv := &server{start: time.Now(), script: c.Script}
 		var authClient *auth.Client
-		if c.Op == "A" || c.Op == "W" || c.PreAuth {
+		if c.Op == "A" || c.Op == "W" || c.Op == "U" || c.PreAuth {
 			authClient = &auth.Client{Cache: auth.NewCache(),
 				Credential: auth.StaticCredential("registry.example", auth.Credential{Username: "u", Password: "p"})}
 		}
@@ -476,6 +480,28 @@ func execScript(t *testing.T, c *scriptCase) scriptObs {
 					obs.res = "PANIC"
 				}
 			}()
+			if c.Op == "U" || c.Op == "u" {
+				// blob push through the Repository: POST (no body), then PUT with the blob
+				repo, err := remote.NewRepository("registry.example/r")
+				if err != nil {
+					panic(err)
+				}
+				repo.PlainHTTP = true
+				repo.Client = client
+				desc := ocispec.Descriptor{MediaType: "application/octet-stream",
+					Digest: digest.Digest("sha256:" + hex.EncodeToString(sha256Sum(data))), Size: int64(len(data))}
+				var rd io.Reader = bytes.NewReader(data)
+				if c.Body == "O" {
+					rd = &oneShot{bytes.NewReader(data)}
+				}
+				err = repo.Blobs().Push(ctx, desc, rd)
+				if err == nil {
+					obs.res = "RESP201"
+				} else {
+					obs.res = classify(nil, err, srv.lastShape)
+				}
+				return
+			}
 			if c.Manifest != "" {
 				repo, err := remote.NewRepository("registry.example/r")
 				if err != nil {
@@ -604,6 +630,25 @@ func scriptCaseRun(t *testing.T, c *scriptCase) {
 	if c.Op != "T" {
 		line += " second=" + showAttempts(sends[1], data) + " third=" + showAttempts(sends[2], data)
 	}
+	upload := c.Op == "U" || c.Op == "u"
+	if upload {
+		// sends of a blob push: POST (as sent first / re-sent after a challenge), PUT (same)
+		sends = make([][]attemptRec, 4)
+		for i, r := range obs.log {
+			base := 0
+			if r.method == http.MethodPut {
+				base = 2
+			}
+			k := base
+			if len(sends[base]) > 0 && (len(sends[base+1]) > 0 || r.auth != sends[base][len(sends[base])-1].auth) {
+				k = base + 1
+			}
+			_ = i
+			sends[k] = append(sends[k], r)
+		}
+		line = fmt.Sprintf("%s end=%d post=%s|%s put=%s|%s", obs.res, obs.end, showAttempts(sends[0], nil), showAttempts(sends[1], nil),
+			showAttempts(sends[2], data), showAttempts(sends[3], data))
+	}
 	if c.DefaultPolicy {
 		run.Evaluations++
 		run.Count("oracle_only_default_policy")
@@ -636,7 +681,7 @@ func scriptCaseRun(t *testing.T, c *scriptCase) {
 	// O1: what the registry received on every attempt
 	for i, r := range obs.log {
 		want := data
-		if c.Body[0] == 'N' {
+		if c.Body[0] == 'N' || upload && r.method == http.MethodPost {
 			want = nil
 		}
 		if r.beh.Read >= 0 && r.beh.Read < len(want) {
@@ -724,7 +769,13 @@ func scriptCaseRun(t *testing.T, c *scriptCase) {
 		}
 		ok := obs.res == want
 		rewindErr := obs.res == "ENOTREWINDABLE" && c.Body[0] == 'O' || obs.res == "EGETBODY" && c.Body[0] == 'G'
-		if !ok && rewindErr && c.Op != "T" && last.beh.Kind == "S" && last.beh.Code == 401 {
+		if !ok && rewindErr && upload {
+			// blob push: the PUT was challenged (it did not inherit credentials from the POST)
+			if c.Op == "U" && last.beh.Kind == "S" && last.beh.Code == 401 && (last.beh.Chal == 1 || last.beh.Chal == 2) &&
+				len(sends[1]) == 0 && len(sends[2]) > 0 && len(sends[3]) == 0 {
+				ok = true
+			}
+		} else if !ok && rewindErr && c.Op != "T" && last.beh.Kind == "S" && last.beh.Code == 401 {
 			// the auth client answers a challenge it would have to re-send for with the rewind error:
 			// after the first send (Basic/Bearer challenge), or - warm Bearer cache - after the
 			// cached token was refused with any 401
@@ -940,7 +991,7 @@ func genDuration(r *common.Rand) int64 {
 }
 
 func genScript(r *common.Rand, big bool) *scriptCase {
-	c := &scriptCase{Op: common.Pick(r, []string{"T", "T", "A", "A", "W"}), Cancel: -1}
+	c := &scriptCase{Op: common.Pick(r, []string{"T", "T", "T", "A", "A", "A", "W", "W", "U", "U", "u"}), Cancel: -1}
 	c.MaxRetry = common.Pick(r, []int{0, 1, 2, 3, 3, 5, 5, 8, -1})
 	c.Min = genDuration(r)
 	if c.Min < 0 && r.Chance(3, 4) {
@@ -999,11 +1050,30 @@ func genScript(r *common.Rand, big bool) *scriptCase {
 	}
 	if (c.Body == "R" || c.Body == "O") && !c.UnknownLen && !c.PreAuth && c.Method == "" && r.Chance(1, 3) {
 		// manifest push through the Repository: M = auth client, m = plain retrying client
-		c.Manifest = map[string]string{"A": "M", "T": "m", "W": ""}[c.Op]
+		c.Manifest = map[string]string{"A": "M", "T": "m"}[c.Op]
 	}
 	ns := r.Intn(2*(maxInt(c.MaxRetry, 0)+1) + 3)
 	for i := 0; i < ns; i++ {
 		c.Script = append(c.Script, genBehaviour(r, c.Op != "T", true))
+	}
+	if c.Op == "U" || c.Op == "u" {
+		// blob push: some answers for the POST, its 202, some answers for the PUT, its 201
+		if c.Body != "R" && c.Body != "O" {
+			c.Body = common.Pick(r, []string{"R", "O"})
+			if c.Data == "" && c.BigLen == 0 {
+				c.Data = "00010203"
+			}
+		}
+		c.UnknownLen, c.Method, c.PreAuth, c.Manifest = false, "", false, ""
+		var sc []behaviour
+		for i := r.Intn(3); i > 0; i-- {
+			sc = append(sc, genBehaviour(r, c.Op == "U", true))
+		}
+		sc = append(sc, behaviour{Kind: "S", Code: 202, Read: -1, Lat: int64(r.Intn(20)) * 2})
+		for i := r.Intn(4); i > 0; i-- {
+			sc = append(sc, genBehaviour(r, c.Op == "U", true))
+		}
+		c.Script = append(sc, behaviour{Kind: "S", Code: 201, Read: -1})
 	}
 	if c.Op == "W" && len(c.Script) >= 2 {
 		// exercise the cached-token re-send and the fresh-token third send
@@ -1161,6 +1231,34 @@ func enumScripts(t *testing.T, maxLen int, allCancel bool) {
 	rec(nil)
 }
 
+var uploadAlphabet = []behaviour{
+	{Kind: "S", Code: 503, Read: 2}, {Kind: "S", Code: 401, Chal: 2, Read: -1}, {Kind: "S", Code: 401, Chal: 1, Read: 1},
+	{Kind: "S", Code: 202, Read: -1, Lat: 4}, {Kind: "S", Code: 201, Read: -1}, {Kind: "TO", Read: -1}, {Kind: "S", Code: 404, Read: 0},
+}
+
+// enumUploads: every behaviour sequence up to maxLen against a blob push, both body kinds, both clients
+func enumUploads(t *testing.T, maxLen int) {
+	var rec func(prefix []behaviour)
+	rec = func(prefix []behaviour) {
+		if len(prefix) > 0 {
+			for _, op := range []string{"U", "u"} {
+				for _, body := range []string{"R", "O"} {
+					scriptCaseRun(t, &scriptCase{Op: op, MaxRetry: 2, Min: 100, Max: 1000, Tbl: []int64{50, 5000}, Dflt: 300, Cancel: -1,
+						Body: body, Data: "0102030405", Script: append([]behaviour(nil), prefix...)})
+					run.Count("enumerated_uploads")
+				}
+			}
+		}
+		if len(prefix) == maxLen {
+			return
+		}
+		for _, b := range uploadAlphabet {
+			rec(append(prefix, b))
+		}
+	}
+	rec(nil)
+}
+
 // ---------------------------------------------------------------- entry point
 
 // replayCases re-runs the "cases" array of a replay/corpus file.  (Not via
@@ -1184,7 +1282,7 @@ func replayCases(t *testing.T) {
 			continue
 		}
 		switch head.Op {
-		case "T", "A", "W":
+		case "T", "A", "W", "U", "u":
 			var c scriptCase
 			if err := json.Unmarshal(js, &c); err != nil {
 				panic(err)
@@ -1255,6 +1353,7 @@ func TestVerif(t *testing.T) {
 			scriptCaseRun(t, c)
 		}
 	}
+	enumUploads(t, run.Scale(4, 6))
 	nScripts := run.Scale(2500, 500000)
 	nPoints := run.Scale(20000, 4000000)
 	nBig := run.Scale(6, 200)
